@@ -348,29 +348,36 @@ def rule_wiring(fx, rep):
     # pairing_with in both directions
     for g, aff, order in (('G1', 'bls12_381::ec::g1::G1Affine', (1, 2)), ('G2', 'bls12_381::ec::g2::G2Affine', (2, 1))):
         pw = fx.impl_method('CurveAffine', aff, 'pairing_with')
-        pp = roles.roles(fx)[g].get('perform_pairing')
-        okw = False
-        if pw and fx.body(pw):
-            rep.fn(pw)
-            cs = [callee(tt) for _, tt in fx.body(pw).calls()]
-            okw = len(cs) == 1 and (cs[0].get('res') or '') == pp
-        b = fx.body(pp) if pp else None
-        okp = False
-        why = ''
-        if b is not None:
-            rep.fn(pp)
-            o = Origin(b)
-            t = strip(o.local(0))
-            okp = t[0] == 'call' and t[1].get('name') == 'pairing' and t[1].get('trait') == 'Engine' and (t[1].get('self_ty') or '').endswith('Bls12')
-            if okp:
-                a = [strip(x) for x in t[2]]
-                def src(x):
-                    while x[0] == 'proj':
-                        x = strip(x[1])
-                    return x
-                okp = [src(x) for x in a] == [('param', order[0]), ('param', order[1])]
-                why = 'arguments %s' % [term_str(x) for x in t[2]]
-        rep.check(okw and okp, 'WIRE', '%s:pairing_with' % g, 'pairing_with -> Bls12::pairing(G1 element, G2 element)', why or 'pairing_with is not wired to perform_pairing', construct=pp)
+        if not (pw and fx.body(pw)):
+            rep.fail('WIRE', '%s:pairing_with' % g, 'pairing_with not found')
+            continue
+        rep.fn(pw)
+        import inline as INL
+
+        def trp(I, fr, t, c, pth):
+            if c.get('name') == 'pairing' and c.get('trait') == 'Engine':
+                if not (c.get('self_ty') or '').endswith('Bls12'):
+                    return False
+                fr.storev(t['dest'], ('pairing', fr.deref_operand(t['args'][0]), fr.deref_operand(t['args'][1])))
+                return True
+            if c.get('name') in ('into', 'from', 'clone', 'into_affine', 'borrow', 'as_ref') and len(t['args']) == 1:
+                v = fr.deref_operand(t['args'][0])
+                if isinstance(v, str):
+                    fr.storev(t['dest'], v)
+                    return True
+            return False
+        I = exp.Interp(fx, 'none', extra_transfer=trp, inline=lambda q: INL.is_private_helper(fx, q))
+        okp, why = False, ''
+        try:
+            res = I.run(pw, [('byref', 'SELF'), ('byref', 'OTHER')])
+            rep.sites(I.call_sites)
+            res = [r_ for r_ in res if not (isinstance(r_[1], tuple) and r_[1] and r_[1][0] == 'diverges')]
+            want = ('pairing', 'SELF', 'OTHER') if order == (1, 2) else ('pairing', 'OTHER', 'SELF')
+            okp = len(res) == 1 and res[0][1] == want
+            why = 'returns %r, expected %r' % ([r_[1] for r_ in res], want)
+        except (exp.NotDerivable, exp.Budget) as e:
+            why = 'not derivable: %s' % e
+        rep.check(okp, 'WIRE', '%s:pairing_with' % g, 'pairing_with(self, other) = Bls12::pairing(G1 element, G2 element) (by interpretation, helpers inlined)', why, fx.fn(pw)['span'], construct=pw)
 
 
 def rule_prepared_types(fx, rep):
